@@ -185,8 +185,18 @@ def _clip(slices, ivs):
     return out
 
 
+def _coerce(v):
+    """2 ** n as a mask: the single one at position n"""
+    if isinstance(v, Pow2):
+        return Ones([(v.form, ladd(v.form, L(1)))])
+    return v
+
+
 def _shift(v, k, left):
     """v << k (left) or v >> k"""
+    if isinstance(v, Pow2) and isinstance(k, Num) and left:
+        return Pow2(ladd(v.form, k.form))
+    v = _coerce(v)
     if not isinstance(k, Num):
         raise Undecided('shift by something that is not a width / shift amount')
     d = k.form if left else lneg(k.form)
@@ -209,6 +219,7 @@ def _shift(v, k, left):
 
 
 def _and(a, b):
+    a, b = _coerce(a), _coerce(b)
     if isinstance(a, Ones) and isinstance(b, Ones) and (a.ivs is None or b.ivs is None):
         return Ones(None)
     if isinstance(a, Ones) and isinstance(b, Ones):
@@ -230,6 +241,7 @@ def _and(a, b):
 
 
 def _or(a, b):
+    a, b = _coerce(a), _coerce(b)
     if isinstance(a, Bits) and isinstance(b, Bits):
         return Bits(a.slices + b.slices, a.truncated or b.truncated)
     if isinstance(a, Ones) and isinstance(b, Ones):
@@ -251,6 +263,7 @@ def _xor(a, b):
 
 
 def _invert(a):
+    a = _coerce(a)
     if isinstance(a, Ones) and a.ivs is None:
         raise Undecided('~ of a mask that is only known to be finite')
     if isinstance(a, Ones):
